@@ -54,7 +54,7 @@ def main():
             if rc != 0: rec["status"] = "killed-by-suite"; continue
             rec["status"] = "survives-suite"; rec["checks"] = {}
             for c in checks:
-                rc, out = sh("%s/check %s quick" % (VERIF, c), env=dict(ENV, VERIF_REPO=wt), cwd=VERIF)
+                rc, out = sh("%s/check %s quick" % (VERIF, c), env=dict(ENV, VERIF_REPO=wt, VERIF_HARNESS_ARGS="-nomin -maxviol 2"), cwd=VERIF)
                 cls = sorted(set(l.split("class=")[1].split()[0] for l in out.splitlines() if l.startswith("violation class=")))
                 rec["checks"][c] = {"rc": rc, "classes": cls}
                 sh("rm -f %s/replays/*.json" % VERIF)
